@@ -6,7 +6,7 @@ import yaml
 from hypothesis import strategies as st
 
 from vlib import SRC, sandbox as S
-from vlib.harness import Result, HarnessError
+from vlib.harness import Result, HarnessError, digest
 from .common import exc_key
 
 ID = "C16"
@@ -209,6 +209,29 @@ def evaluate(case):
             if a != w:
                 which = {"c": "command-line", "s": "-s-file", "u": "user-config", None: "default"}[top]
                 res.fail(f"option:{section}.{key}:{which}", f"expected {w!r} (from {which}) got {a!r}")
+        # end to end for a deterministic sample: the page lands in the predicted directory
+        exp_dir = expected[("output", "directory")]
+        if exp_dir[1] is not None and int(digest(case)[:2], 16) % 6 == 0 and not res.failures:
+            res.labels.append("end-to-end")
+            want, top = exp_dir[1], exp_dir[2]
+            if os.path.isabs(want):
+                want_abs = want
+            elif rtc and top in ("s", "u"):
+                want_abs = os.path.join(sdir if top == "s" else sb.path("cfg"), want)
+            else:
+                want_abs = os.path.join(cwd, want)
+            inp = sb.path("else", "input.cmake")
+            with open(inp, "w") as f:
+                f.write("function(e2e_fn a)\nendfunction()\n")
+            run2 = S.run_main(full_argv, cwd=cwd, cfgdir=sb.path("cfg"))
+            page = os.path.join(want_abs, "input.rst")
+            excluded_all = False
+            if run2.exc is not None or run2.code != 0:
+                res.fail("end-to-end:" + (exc_key(run2.exc) if run2.exc else f"exit-{run2.code}"), run2.stderr[-200:])
+            elif not os.path.exists(page):
+                others = [os.path.join(dp, f) for dp, _, fn in os.walk(sb.root) for f in fn if f == "input.rst"]
+                res.fail("end-to-end:page-not-in-predicted-directory", f"expected {page.replace(sb.root, '<sb>')}, found "
+                                                                       f"{[o.replace(sb.root, '<sb>') for o in others]}")
     return res
 
 
